@@ -729,3 +729,150 @@ Proof.
     apply scan_coding_eq in E. cbn [cur advance c_rest]. rewrite <- E, app_length. lia. }
   lia.
 Qed.
+
+(* ---- positions: every event reports the line and column of the offset it begins at --------- *)
+From MakoV Require Import Model.PyLine.
+
+Lemma countN_app c a b : countN c (a ++ b) = countN c a + countN c b.
+Proof. induction a as [|x r IH]; cbn [app countN]; [reflexivity|]. rewrite IH. lia. Qed.
+
+Lemma last_lf_base_app a : forall off base b,
+  last_lf_base off base (a ++ b) = last_lf_base (off + N.of_nat (length a)) (last_lf_base off base a) b.
+Proof.
+  induction a as [|x r IH]; intros off base b; cbn [app last_lf_base length].
+  - rewrite N.add_0_r. reflexivity.
+  - rewrite IH. f_equal. lia.
+Qed.
+
+Definition cursor_at (pre : str) (c : cursor) : Prop :=
+  c_off c = N.of_nat (length pre) /\ c_line c = line_of_prefix pre /\ c_colbase c = colbase_of_prefix pre.
+
+Lemma cursor_at_advance pre c slice rest : cursor_at pre c -> cursor_at (pre ++ slice) (advance c slice rest).
+Proof.
+  intros [Ho [Hl Hc]]. unfold cursor_at, advance. cbn [c_off c_line c_colbase]. repeat split.
+  - rewrite Ho, app_length. lia.
+  - rewrite Hl. unfold line_of_prefix. rewrite countN_app. lia.
+  - rewrite Hc, Ho. unfold colbase_of_prefix. rewrite last_lf_base_app. cbn. reflexivity.
+Qed.
+
+(* each event, read in order, sits at the position of the text before it *)
+Fixpoint positions_ok (pre : str) (es : list event) : Prop :=
+  match es with
+  | [] => True
+  | e :: r => ev_line e = line_of_prefix pre /\ ev_pos e = col_of_prefix pre /\ positions_ok (pre ++ ev_src e) r
+  end.
+
+Lemma positions_ok_app pre es e :
+  positions_ok pre es ->
+  ev_line e = line_of_prefix (pre ++ flat_map ev_src es) ->
+  ev_pos e = col_of_prefix (pre ++ flat_map ev_src es) ->
+  positions_ok pre (es ++ [e]).
+Proof.
+  revert pre. induction es as [|x r IH]; intros pre H Hl Hp; cbn [app positions_ok flat_map] in *.
+  - rewrite app_nil_r in Hl, Hp. auto.
+  - destruct H as [A [B C]]. repeat split; auto. apply IH; [exact C| |]; rewrite <- app_assoc; assumption.
+Qed.
+
+Definition PInv (st : lstate) : Prop :=
+  positions_ok [] (rev (evs st)) /\ cursor_at (srcs st) (cur st).
+
+Lemma mk_event_pos pre c k src : cursor_at pre c ->
+  ev_line (mk_event c k src) = line_of_prefix pre /\ ev_pos (mk_event c k src) = col_of_prefix pre.
+Proof.
+  intros [Ho [Hl Hc]]. unfold mk_event, cur_pos, col_of_prefix. cbn [ev_line ev_pos]. rewrite Ho, Hl, Hc. split; reflexivity.
+Qed.
+
+Lemma pinv_push st k src rest : PInv st ->
+  PInv (push_ev st (mk_event (cur st) k src) (advance (cur st) src rest)).
+Proof.
+  intros [HP HC]. destruct (mk_event_pos _ _ k src HC) as [A B]. split.
+  - unfold push_ev. cbn [evs rev]. apply positions_ok_app; cbn [app]; assumption.
+  - rewrite srcs_push. cbn [push_ev cur mk_event ev_src]. apply cursor_at_advance. exact HC.
+Qed.
+
+Lemma pinv_push_raw st k src rest tg ct : PInv st ->
+  PInv {| cur := advance (cur st) src rest; tags := tg; ctls := ct; evs := mk_event (cur st) k src :: evs st |}.
+Proof.
+  intros H. destruct (pinv_push st k src rest H) as [A B]. split; [exact A|exact B].
+Qed.
+
+Lemma do_tag_end_pinv st st' : PInv st -> do_tag_end st = Continue st' -> PInv st'.
+Proof.
+  intros H. unfold do_tag_end. destruct (scan_tag_end _) as [[[name src] rest]|]; [|discriminate].
+  destruct (tags st) as [|top more]; [discriminate|]. destruct (str_eqb top name); [|discriminate].
+  intros [= <-]. apply pinv_push_raw. exact H.
+Qed.
+
+Lemma run_matcher_pinv m st st' : PInv st -> run_matcher m st = Continue st' -> PInv st'.
+Proof.
+  intros H. destruct m; cbn [run_matcher].
+  - unfold m_comment. destruct (scan_doc _) as [[[body src] rest]|]; [|discriminate]. intros [= <-]. apply pinv_push; exact H.
+  - unfold m_control_line. destruct (negb _); [discriminate|].
+    destruct (scan_control_line _) as [[[[[op lead] text] nl] rest]|]; [|discriminate].
+    destruct op.
+    + destruct (ctl_keyword text) as [[isend kw]|]; [|discriminate]. destruct isend.
+      * destruct (ctls st) as [|[[top l] p] rc]; [discriminate|]. destruct (str_eqb top kw); [|discriminate].
+        intros [= <-]. apply pinv_push_raw; exact H.
+      * destruct (is_primary kw); [intros [= <-]; apply pinv_push_raw; exact H|].
+        destruct (ctls st) as [|[[top l] p] rc]; [intros [= <-]; apply pinv_push; exact H|].
+        destruct (is_ternary top kw); [intros [= <-]; apply pinv_push; exact H|discriminate].
+    + intros [= <-]. apply pinv_push; exact H.
+  - unfold m_expression. destruct (strip_prefix _ _); [|discriminate].
+    destruct (parse_until true _ _) as [[[text stop] r1]|]; [|discriminate].
+    destruct (str_eqb stop [cPIPE]).
+    + destruct (parse_until true _ r1) as [[[esc stop2] r2]|]; [|discriminate]. intros [= <-]. apply pinv_push; exact H.
+    + intros [= <-]. apply pinv_push; exact H.
+  - unfold m_percent. destruct (negb _); [discriminate|].
+    destruct (scan_percent _) as [[[[ws ps] src] rest]|]; [|discriminate]. intros [= <-]. apply pinv_push; exact H.
+  - unfold m_python_block. destruct (strip_prefix _ _) as [r0|]; [|discriminate].
+    destruct (match r0 with x :: r => if x =? cEXCL then (true, [cLT; cPCT; cEXCL], r) else (false, [cLT; cPCT], r0) | [] => (false, [cLT; cPCT], r0) end) as [[ismod opening] r1].
+    destruct (parse_until false _ r1) as [[[text stop] r2]|]; [|discriminate]. intros [= <-]. apply pinv_push; exact H.
+  - apply do_tag_end_pinv. exact H.
+  - unfold m_tag_start. destruct (scan_tag_start _) as [[[[[kw attrs] sc] src] rest]|]; [|discriminate].
+    destruct sc; [intros [= <-]; apply pinv_push; exact H|].
+    pose proof (pinv_push_raw st (KTag kw attrs false) src rest (kw :: tags st) (ctls st) H) as H1.
+    destruct (str_eqb kw (s2l "text")); [|intros [= <-]; exact H1].
+    destruct (find_lit _ rest) as [[body r2]|]; [|discriminate].
+    destruct body as [|b0 body'].
+    + destruct (do_tag_end _) as [st2|st2 o l p|] eqn:Ed; [|discriminate|].
+      * intros [= <-]. apply (do_tag_end_pinv _ _ H1 Ed).
+      * intros [= <-]. exact H1.
+    + match goal with |- context [do_tag_end ?S] => set (st2 := S) end.
+      assert (H2 : PInv st2) by (unfold st2; apply (pinv_push _ _ _ _ H1)).
+      destruct (do_tag_end st2) as [st3|st3 o l p|] eqn:Ed; [|discriminate|].
+      * intros [= <-]. apply (do_tag_end_pinv _ _ H2 Ed).
+      * intros [= <-]. exact H2.
+  - unfold m_text. destruct (scan_text _ _) as [[t d] rest]. destruct t as [|t0 t']; destruct d as [|d0 d'].
+    + destruct rest as [|x r]; [discriminate|]. intros [= <-]. apply pinv_push; exact H.
+    + intros [= <-]. apply pinv_push; exact H.
+    + intros [= <-]. apply pinv_push; exact H.
+    + intros [= <-].
+      match goal with |- PInv (push_ev ?S1 _ _) => pose proof (pinv_push st (KText (t0 :: t')) (t0 :: t') ((d0 :: d') ++ rest) H) as H1 end.
+      apply (pinv_push _ KDropNL (d0 :: d') rest H1).
+Qed.
+
+Lemma cascade_pinv ms st st' : PInv st -> cascade ms st = Continue st' -> PInv st'.
+Proof.
+  intros H. induction ms as [|m r IH]; cbn [cascade]; [discriminate|].
+  destruct (run_matcher m st) as [s1|s1 o l p|] eqn:E; [intros [= <-]; apply (run_matcher_pinv m st); assumption|discriminate|exact IH].
+Qed.
+
+Lemma pinv_start s : PInv (lex_start s).
+Proof.
+  unfold lex_start. destruct (scan_coding s) as [[src rest]|].
+  - apply (pinv_push_raw {| cur := {| c_rest := s; c_off := 0; c_line := 1; c_colbase := 0; c_prev := None |}; tags := []; ctls := []; evs := [] |} KCoding src rest [] []).
+    split; [exact I|]. repeat split.
+  - split; [exact I|]. repeat split.
+Qed.
+
+(* every node of a successful lex carries the line and column of the offset it begins at *)
+Theorem node_position s es : lex s = (es, LexOk) -> positions_ok [] es.
+Proof.
+  unfold lex. pose proof (pinv_start s) as H0. revert H0. generalize (lex_start s). generalize (S (S (length s))).
+  induction n as [|f IH]; intros st HP; cbn [lex_loop]; [discriminate|].
+  destruct (c_rest (cur st)).
+  - unfold finish. destruct (tags st); [|discriminate]. destruct (ctls st) as [|[[k l] p] rc]; [|discriminate].
+    intros [= <-]. apply HP.
+  - destruct (cascade matcher_order st) as [st'|st' o ln ps|] eqn:Ec; [|discriminate|discriminate].
+    apply IH. apply (cascade_pinv _ _ _ HP Ec).
+Qed.
